@@ -136,11 +136,67 @@ class Run:
         o[r] += 1
         if r == "unknown":
             self.inconclusive.append({"obligation": obligation, "scenario": scenario})
+        elif r in ("sat", "unsat"):
+            self._second_opinion(solver, r, obligation)
         if symbolic and scenario is not None:
             self.nontrivial.add((obligation, json.dumps(scenario, sort_keys=True, default=str)))
         elif symbolic:
             self.nontrivial.add((obligation, len(self.nontrivial)))
         return r
+
+    # -- second solver -----------------------------------------------------
+    def _second_opinion(self, solver, verdict, obligation):
+        """A deterministic sample of the decided queries is written out as SMT-LIB2 and
+        given to a second, independent solver binary (cvc5 1.0; /usr/bin/z3 4.8.12 when
+        cvc5 does not answer).  A contradicting verdict is a harness error (exit 2):
+        nothing the run reports is believed then.  `unknown`/timeouts of the second
+        solver are counted, not failures."""
+        every = int(os.environ.get("VERIF_CROSS_EVERY", "40" if self.tier == "quick" else "15"))
+        cap = int(os.environ.get("VERIF_CROSS_CAP", "6" if self.tier == "quick" else "40"))
+        n = self.queries["sat"] + self.queries["unsat"]
+        # always the first decided query of each obligation, then every `every`-th
+        first = self.ob(obligation)["sat"] + self.ob(obligation)["unsat"] == 1
+        if every <= 0 or self.second_solver["queries"] >= cap or not (first or n % every == 0):
+            return
+        import subprocess
+        import tempfile
+
+        try:
+            txt = solver.to_smt2()
+        except Exception:
+            return
+        if len(txt) > 4_000_000:
+            return
+        txt = "(set-logic ALL)\n" + "\n".join(l for l in txt.splitlines() if not l.startswith("(set-info"))
+        fd, path = tempfile.mkstemp(suffix=".smt2", prefix="vf_cross_")
+        os.write(fd, txt.encode())
+        os.close(fd)
+        t = time.time()
+        ans = None
+        try:
+            for cmd in (["cvc5", "--lang", "smt2", "--tlimit", "8000", path], ["/usr/bin/z3", "-T:10", path]):
+                try:
+                    out = subprocess.run(cmd, capture_output=True, text=True, timeout=25).stdout
+                except Exception:
+                    continue
+                if "(error" in out:
+                    continue
+                first_line = out.strip().splitlines()[0].strip() if out.strip() else ""
+                if first_line in ("sat", "unsat"):
+                    ans = (os.path.basename(cmd[0]), first_line)
+                    break
+        finally:
+            os.unlink(path)
+        self.second_solver["queries"] += 1
+        self.second_solver["seconds"] = round(self.second_solver.get("seconds", 0.0) + time.time() - t, 2)
+        if ans is None:
+            self.second_solver["no_answer"] = self.second_solver.get("no_answer", 0) + 1
+        elif ans[1] == verdict:
+            self.second_solver["agree"] = self.second_solver.get("agree", 0) + 1
+            self.second_solver[ans[0]] = self.second_solver.get(ans[0], 0) + 1
+        else:
+            self.second_solver["disagreements"] += 1
+            self.errors.append("second solver %s says %s where z3 said %s (obligation %s)" % (ans[0], ans[1], verdict, obligation))
 
     def twin(self, solver, what=""):
         """Reachability twin: the assumptions alone must be satisfiable."""
@@ -173,6 +229,7 @@ class Run:
             "errors": self.errors,
             "notes": self.notes,
             "smt_sample": self.smt_sample,
+            "second_solver": self.second_solver,
             "functions": self.functions,
             "transforms": self.transforms,
             "stubs": self.stubs,
@@ -203,6 +260,8 @@ class Run:
         for k in ("explored", "cap_hits"):
             self.paths[k] += d["paths"][k]
         self.inconclusive += d["inconclusive"]
+        for k, v in d.get("second_solver", {}).items():
+            self.second_solver[k] = round(self.second_solver.get(k, 0) + v, 2)
         self.errors += d["errors"]
         for n in d["notes"]:
             if n not in self.notes:
